@@ -151,3 +151,59 @@ if __name__ == "__main__":
     except Broken as e:
         print("CHECK-BROKEN:", e)
         sys.exit(2)
+
+
+FIXTURES_DIR = os.path.join(VERIF, "fixtures")
+
+
+def extract_fixtures(log=sys.stderr):
+    """facts of the positive-control fixture crate; memoised by digest of its sources + driver"""
+    if not os.path.exists(DRIVER):
+        build_driver()
+    h = hashlib.sha256()
+    for root, _, files in sorted(os.walk(FIXTURES_DIR)):
+        if "/target" in root:
+            continue
+        for f in sorted(files):
+            if f.endswith((".rs", ".toml", ".lock")):
+                with open(os.path.join(root, f), "rb") as fh:
+                    h.update(f.encode() + b"\0" + fh.read())
+    with open(DRIVER, "rb") as fh:
+        h.update(hashlib.sha256(fh.read()).digest())
+    digest = "fixtures-" + h.hexdigest()[:16]
+    out = os.path.join(CACHE, "facts", digest)
+    os.makedirs(os.path.join(CACHE, "facts"), exist_ok=True)
+    lockf = open(os.path.join(CACHE, "fixtures.lock"), "w")
+    fcntl.flock(lockf, fcntl.LOCK_EX)
+    try:
+        if os.path.exists(os.path.join(out, "DONE")):
+            return out
+        tmp = out + ".tmp"
+        shutil.rmtree(tmp, ignore_errors=True)
+        shutil.rmtree(out, ignore_errors=True)
+        os.makedirs(tmp)
+        target = os.path.join(CACHE, "fixtures-target")
+        shutil.rmtree(os.path.join(target, "debug", ".fingerprint"), ignore_errors=True)
+        env = _env(FIXTURES_DIR)
+        env["CORROLINT_OUT"] = tmp
+        env["RUSTC_WORKSPACE_WRAPPER"] = DRIVER
+        env["CARGO_TARGET_DIR"] = target
+        env.pop("RUSTFLAGS", None)
+        r = subprocess.run(["cargo", "check", "--offline", "--quiet"], cwd=FIXTURES_DIR, capture_output=True,
+                           text=True, env=env)
+        if r.returncode != 0:
+            raise Broken("fixture crate does not build:\n" + r.stderr[-3000:])
+        n = 0
+        for f in glob.glob(os.path.join(tmp, "*.jsonl")):
+            crate = os.path.basename(f).rsplit("-", 1)[0]
+            os.rename(f, os.path.join(tmp, crate + ".facts"))
+            n += 1
+        if n == 0:
+            raise Broken("fixture extraction produced no facts")
+        with open(os.path.join(tmp, "DONE"), "w") as fh:
+            fh.write(digest)
+        os.rename(tmp, out)
+        return out
+    finally:
+        fcntl.flock(lockf, fcntl.LOCK_UN)
+        lockf.close()
